@@ -784,19 +784,31 @@ func serverPart(r *ev.Run) (states, transitions int) {
 		// the seed is executed under the oracle too (its transitions are real ones), tracking the response record
 		h := newHarness(cfgs[ci])
 		v := h.view()
-		for _, e := range cfgs[ci].Seed {
+		broken := false
+		for k, e := range cfgs[ci].Seed {
 			a, vs, ok := step(h, v, e)
-			if !ok || len(vs) > 0 {
-				r.HarnessError("C37(a): seed event %s of %s: executable=%v violations=%v", e, cfgs[ci].Name, ok, vs)
+			if !ok {
+				r.HarnessError("C37(a): seed event %s of %s not executable", e, cfgs[ci].Name)
+			}
+			for _, x := range vs {
+				broken = true
+				r.Violation("server:"+x.key, map[string]any{"config": cfgs[ci].Name, "events": cfgs[ci].Seed[:k+1], "what": x.detail,
+					"max_capacity": tc.MAX_CAPACITY, "max_tx_in_block": maxTxInBlock, "state_after": a.Key})
 			}
 			transitions++
+			r.Eval()
 			v = a
 		}
-		if len(v.Pool) != cfgs[ci].wantPool || len(v.Pending) != cfgs[ci].wantPend || h.saveModel() != (rmodel{}) {
+		if !broken && (len(v.Pool) != cfgs[ci].wantPool || len(v.Pending) != cfgs[ci].wantPend || h.saveModel() != (rmodel{})) {
 			r.HarnessError("C37(a): seed of %s gave pool %v pending %v", cfgs[ci].Name, sortedKeys(v.Pool), sortedKeys(v.Pending))
 		}
-		inits = append(inits, sstate{Cfg: uint8(ci), Key: hashOf(h.stateKey(v)), Evs: enabled(v)})
+		if !broken { // a configuration whose seed already violates the property is reported, not explored further
+			inits = append(inits, sstate{Cfg: uint8(ci), Key: hashOf(h.stateKey(v)), Evs: enabled(v)})
+		}
 		h.close()
+	}
+	if len(inits) == 0 {
+		return 0, transitions
 	}
 	// determinism of the harness: the same path twice gives the same state
 	{
